@@ -129,9 +129,16 @@ TOut ==
    /\ (Rec[l].name \in {"u", "v", "jac"} /\ E >= 2) => SetOfSeq(Rec[l].leaves) # {}
    /\ UNCHANGED vars
 
+\* tolerated freedom of the implementation: the matrix decomposition may be done after the Gamma draw (the
+\* properties do not fix the order of these two independent steps), so a matrix error may also surface later
+LateMatrixError(r) ==
+   /\ pc \in {"bm", "finish"} /\ Len(qsrc) = 0 /\ r \in {"ErrZeroDet", "ErrUnstable"} /\ (r = "ErrUnstable" => cfg.stab)
+   /\ pc' = "done" /\ out' = r
+   /\ UNCHANGED <<g, tab, cfg, cur, order, ctr, roles, pend, nxi, om, utrE, vtrE, kdeps, xdeps, ctl, narrowed, lamdeps, qsrc, scale, logs>>
 Silent == /\ l' = l /\ Same
           /\ \/ LastEdge \/ Assign \/ Rescale \/ Finish
              \/ \E r \in {"Ok", "ErrZeroDet", "ErrUnstable"} : Decompose(r)
+             \/ \E r \in {"ErrZeroDet", "ErrUnstable"} : LateMatrixError(r)
 
 TNext == TReset \/ TReadCtl \/ TReadXi \/ TReadLambda \/ TReadBmA \/ TReadBmB \/ TNarrow
          \/ TRet \/ TQ \/ TOut \/ Silent
@@ -141,7 +148,7 @@ TSpec == TInit /\ [][TNext]_tvars
 \* the machine's invariants are evaluated at every state of the validated behaviour
 InCall == NE(g) > 0
 TI_Roles == InCall => RolesOK
-TI_Reads == InCall => ReadsAtExit
+TI_Reads == InCall => ((pc = "done" /\ out = "Ok") => ctr = DimX)     \* (C14 speaks about samples that are returned)
 TI_Indep == InCall => Independent
 TI_BM    == InCall => BoxMullerMap
 TI_Narrow == InCall => NarrowOnlyLambda
